@@ -590,6 +590,7 @@ impl Expansion<'_> {
                 shared_attr_is_wrapping
             }
             None => {
+                bounds.extend(self.attrs.common.bounds.0.clone());
                 if shared_attr_is_wrapping || !has_shared_attr {
                     bounds.extend(self.fields.iter().next().and_then(|f| {
                         let ty = &f.ty;
